@@ -140,7 +140,7 @@ class StoreSim:
             feats.setdefault('adds_in_session', sess.adds > 0)
             feats.setdefault('cache_mb', sess.cache_mb)
         props = list(CODE_PROPS.get(code, ['C07']))
-        if sess is not None and sess.kind == 'merged':
+        if (sess is not None and sess.kind == 'merged') or (sess is None and features.get('mode') == 'merged'):
             if code.startswith(('get.wrong_item', 'len.', 'get.oob', 'get.raised', 'iter.', 'open.')):
                 props = ['C09']
             if code.startswith('lookup.'):
@@ -162,15 +162,58 @@ class StoreSim:
         except Exception:  # noqa: BLE001
             return 'unknown'
 
+    def _file_rows(self, f: MFile, overlay) -> list:
+        """Rows of one file when some field sets are served from the recomputed version in an
+        associated file.  overlay: [(associated file name, [field sets])]."""
+        rows = f.rows
+        for a, fsl in overlay:
+            alt = f.alt.get(a)
+            if alt:
+                names = [fname for x in fsl for fname, *_ in G.FIELDS[x]]
+                rows = [dict(r, **{k: x[k] for k in names if k in x}) for r, x in zip(rows, alt['rows'])]
+        return rows
+
+    def _resolve(self, f: MFile, assoc_names, override: bool):
+        """Which file serves which field set: the first file that has it (base file first, then the
+        associated files in the order given), or the last one with override=True.
+        Returns (visible field sets, overlay)."""
+        provider = {x: None for x in f.base_fs}
+        known = dict(list(f.assoc) + list(f.extra_assoc))
+        for a in assoc_names:
+            for x in list(known.get(a, [])):
+                if x not in provider or override:
+                    provider[x] = (a, False)
+            for x in f.alt.get(a, {}).get('fs', []):
+                if x not in provider or override:
+                    provider[x] = (a, True)
+        overlay = {}
+        for x, pr in provider.items():
+            if pr is not None and pr[1]:
+                overlay.setdefault(pr[0], []).append(x)
+        return list(provider), [(a, fsl) for a, fsl in overlay.items()]
+
     def _rows(self, sess: MSession) -> list:
         if sess.kind == 'mem':
             return sess.mem_rows
         if sess.kind == 'merged':
             out = []
             for p in sess.merged.parts:
-                out += self.files[p].rows
+                f = self.files[p]
+                ov = [(self._assoc_entry(f, self.merged[an].assoc_key)[0], fsl) for an, fsl in sess.overlay]
+                out += self._file_rows(f, ov) if ov else f.rows
             return out
+        if sess.overlay:
+            return self._file_rows(sess.file, sess.overlay)
         return sess.file.rows
+
+    @staticmethod
+    def _assoc_entry(f: MFile, akey: int):
+        """(name, field sets stored in it) of an associated file; keys >= 100 address the files
+        made by create_associated."""
+        if akey >= 100:
+            name, fs = f.extra_assoc[akey - 100]
+            return name, list(fs) + list(f.alt.get(name, {}).get('fs', []))
+        return f.assoc[akey]
 
     def _specs(self, sess: MSession) -> list:
         if sess.kind == 'mem':
@@ -225,7 +268,49 @@ class StoreSim:
         code, fld, shape, detail = r
         if via == 'lookup':
             code = 'lookup.wrong_item'
+        if sess.kind == 'merged' and via != 'lookup' and self._part_alone_agrees(sess, idx, exp, vis):
+            # the same input store opened on its own (same associated files, same options) serves
+            # what was added; only the merged store differs: "the i-th trajectory equals the
+            # corresponding trajectory of the inputs" (C09), not a storage fault (C03)
+            try:
+                self.fail(code, f'index {idx} field {fld}: {detail}', sess, field=fld, shape=shape,
+                          part_alone_agrees=True, **feats)
+            except OracleFailure as of:
+                of.v['props'] = ['C09']
+                raise
         self.fail(code, f'index {idx} field {fld}: {detail}', sess, field=fld, shape=shape, **feats)
+
+    def _part_alone_agrees(self, sess: MSession, idx: int, exp: dict, vis) -> bool:
+        """Differential for merged sessions: read the row from its input store opened alone."""
+        from AEIC.trajectories import TrajectoryStore
+
+        c = 0
+        for p in sess.merged.parts:
+            f = self.files[p]
+            if idx < c + len(f.rows):
+                break
+            c += len(f.rows)
+        else:
+            return False
+        kw = {}
+        anames = [self._assoc_entry(f, self.merged[an].assoc_key)[0] for an in sess.__dict__.get('assoc_used', [])]
+        if anames:
+            kw['associated_files'] = [self.apath(f, a) for a in anames]
+        if sess.__dict__.get('override'):
+            kw['override'] = True
+        store = None
+        try:
+            store = TrajectoryStore.open(base_file=self.fpath(f), cache_size_mb=2048, **kw)
+            got = G.snapshot(store[idx - c])
+            return G.compare(exp, got, vis) is None
+        except Exception:  # noqa: BLE001
+            return False
+        finally:
+            if store is not None:
+                try:
+                    store.close()
+                except Exception:  # noqa: BLE001
+                    pass
 
     def _at_seam(self, sess, idx):
         if sess.kind != 'merged':
@@ -321,9 +406,15 @@ class StoreSim:
         for n_ in [name] + [a for a, _ in assoc]:
             os.makedirs(os.path.dirname(self.path(n_)), exist_ok=True)
         try:
-            store = TrajectoryStore.create(base_file=self.path(name), cache_size_mb=op['cache'], **kw)
+            if op.get('via') == 'ctor_str':
+                store = TrajectoryStore(base_file=self.path(name), mode='w', cache_size_mb=op['cache'], **kw)
+            elif op.get('via') == 'ctor_enum':
+                store = TrajectoryStore(base_file=self.path(name), mode=TrajectoryStore.FileMode.CREATE,
+                                        cache_size_mb=op['cache'], **kw)
+            else:
+                store = TrajectoryStore.create(base_file=self.path(name), cache_size_mb=op['cache'], **kw)
         except Exception as e:  # noqa: BLE001
-            self.fail('create.refused', f'{type(e).__name__}: {e}')
+            self.fail('create.refused', f'{type(e).__name__}: {e}', via=op.get('via', 'classmethod'))
         self.files[name] = f
         f.open_by = sid
         f.sessions_seen += 1
@@ -368,8 +459,12 @@ class StoreSim:
         valid, new_species = self._spec_fits(sess, spec)
         if not valid:
             return None
+        if spec['n'] == 0 and sess.kind != 'mem':
+            return None     # zero-point trajectories: in-memory stores only
         traj = G.build_traj(spec)
         snap = G.snapshot(traj)
+        if spec['n'] == 0:
+            self.probes['add_zero_points'] += 1
         if spec.get('cs', 0) % 3 == 0:
             G.scribble_sources(traj)   # the caller reuses its buffers right after building it
         nbytes = int(traj.nbytes)
@@ -435,6 +530,56 @@ class StoreSim:
             self.probes['add_in_append'] += 1
         self._abstract(sess, 'add')
         return idx
+
+    def op_bulk_add(self, op):
+        """Many tiny trajectories in one go (thresholds such as 2**k items)."""
+        sess = self.sessions.get(op['sess'])
+        if sess is None or sess.kind not in ('create', 'append'):
+            return None
+        f = sess.file
+        fs = list(op.get('fs', []))
+        if f.exists and sorted(fs) != sorted(f.all_fs):
+            return None
+        if not f.exists and f.assoc and sorted(fs) != sorted(f.all_fs):
+            return None
+        ident = op.get('ident', False)
+        if f.ident is not None and f.ident != ident:
+            return None
+        rows = self._rows(sess)
+        used = set(f.ids())
+        for i in range(op['count']):
+            fid = None
+            if ident:
+                fid = op['fid0'] + 7 * i
+                if fid in used:
+                    return i
+            spec = {'n': 1, 'cs': op['cs0'] + i, 'fs': fs, 'fid': fid}
+            sp = op.get('species')
+            if sp:
+                spec['species'] = sp
+            traj = G.build_traj(spec)
+            snap = G.snapshot(traj)
+            try:
+                idx = sess.store.add(traj)
+            except Exception as e:  # noqa: BLE001
+                self.fail('add.valid_refused', f'bulk add #{i}: {type(e).__name__}: {e}', sess, first=not f.exists,
+                          bulk=True)
+            if idx != len(rows):
+                self.fail('add.wrong_index', f'bulk add #{i} returned {idx}, model {len(rows)}', sess, bulk=True)
+            rows.append(snap)
+            f.specs.append(spec)
+            sess.adds += 1
+            if not f.exists:
+                if not f.assoc:
+                    f.base_fs = list(fs)
+                    sess.visible_fs = f.all_fs
+                f.exists = True
+                f.ident = ident
+                usedsp = set(x for lst in (sp or {}).values() for x in lst)
+                f.species = [s_ for s_ in G.SPECIES_NAMES if s_ in usedsp]
+        self.probes['bulk_add'] += 1
+        self.probes['bulk_rows'] += op['count']
+        return op['count']
 
     def _add_overflow(self, sess, traj, snap, spec):
         before = len(sess.mem_rows)
@@ -645,8 +790,13 @@ class StoreSim:
                 return 'refused'
             self.fail('lookup.unident_accepted', f'get_flight on an unidentified store returned {type(r).__name__}', sess)
         ids = {s['fid']: i for i, s in enumerate(specs)}
+        arg = fid
+        if op.get('np') and -2 ** 63 <= fid < 2 ** 63:
+            import numpy as _np
+
+            arg = _np.int64(fid)       # an identifier taken from a numpy array
         try:
-            traj = sess.store.get_flight(fid)
+            traj = sess.store.get_flight(arg)
         except Exception as e:  # noqa: BLE001
             self.fail('lookup.raised', f'{type(e).__name__}: {e}', sess, stale=stale, present=fid in ids)
         if fid not in ids:
@@ -755,17 +905,36 @@ class StoreSim:
         if any(f.assoc_where.get(a) for a in assoc_names):
             return None
         ctor = TrajectoryStore.append if mode == 'a' else TrajectoryStore.open
+        if op.get('via') == 'ctor_str':
+            # the documented constructor, with the mode given as its plain string value
+            def ctor(**k):
+                return TrajectoryStore(mode=mode, **k)
+        elif op.get('via') == 'ctor_enum':
+            def ctor(**k):
+                return TrajectoryStore(mode=TrajectoryStore.FileMode(mode), **k)
         op['cache'] = self.eff_cache(op['cache'], self._visible_for(f, assoc_names), f.specs)
+        base_arg = self.fpath(f)
+        if op.get('path_as') == 'Path':
+            import pathlib
+
+            base_arg = pathlib.Path(base_arg)
+        okw = self._open_kwargs(f, assoc_names)
+        override = bool(op.get('override')) and mode == 'r'
+        if override:
+            okw['override'] = True
         try:
-            store = ctor(base_file=self.fpath(f), cache_size_mb=op['cache'],
-                         **self._open_kwargs(f, assoc_names))
+            store = ctor(base_file=base_arg, cache_size_mb=op['cache'], **okw)
         except Exception as e:  # noqa: BLE001
             info = f.__dict__.get('reject_info')
             if info:
                 self.fail('reject.visible_after_reopen', f'reopen failed: {type(e).__name__}: {e}', **info)
             self.fail('open.refused', f'{type(e).__name__}: {e}', mode=mode)
+        vis, overlay = self._resolve(f, assoc_names, override)
         sess = MSession(sid, 'append' if mode == 'a' else 'read', f, op['cache'],
-                        self._visible_for(f, assoc_names), store=store, len_at_open=len(f.rows))
+                        vis, store=store, len_at_open=len(f.rows))
+        sess.overlay = overlay
+        if any(a in f.alt for a in assoc_names):
+            self.probes['open_override_recomputed' if override else 'open_recomputed_no_override'] += 1
         self.sessions[sid] = sess
         f.open_by = sid
         f.sessions_seen += 1
@@ -796,8 +965,9 @@ class StoreSim:
             if info:
                 self.fail('reject.visible_after_reopen', f'reopen failed: {type(e).__name__}: {e}', **info)
             self.fail('open.refused', f'fsck: {type(e).__name__}: {e}', mode='r')
-        sess = MSession('fsck', 'read', f, op['cache'], self._visible_for(f, assoc_names),
-                        store=store, len_at_open=len(f.rows))
+        vis, overlay = self._resolve(f, assoc_names, False)
+        sess = MSession('fsck', 'read', f, op['cache'], vis, store=store, len_at_open=len(f.rows))
+        sess.overlay = overlay
         try:
             n = len(store)
             if n != len(f.rows):
@@ -886,7 +1056,9 @@ class StoreSim:
                 return None
         elif kind == 'oversize':
             # larger than the whole cache: refused by the cache itself
-            if fs != sorted(f.all_fs) or (f.ident is not None and f.ident != has_id) or not f.exists:
+            if (f.exists and fs != sorted(f.all_fs)) or (f.ident is not None and f.ident != has_id):
+                return None
+            if not f.exists and f.assoc and fs != sorted(f.all_fs):
                 return None
             if G.est_nbytes(spec.get('fs', []), spec['n']) <= sess.cache_mb * 1024 * 1024:
                 return None
@@ -1039,7 +1211,7 @@ class StoreSim:
         if sess is None or sess.kind != 'mem' or not sess.mem_rows:
             return None
         name = op['file']
-        if name in self.files:
+        if name in self.files or any(sp['n'] == 0 for sp in sess.mem_specs):
             return None
         fs_all = list(sess.visible_fs)
         assoc = [(a, [x for x in fs if x in fs_all]) for a, fs in op.get('assoc', [])]
@@ -1081,19 +1253,35 @@ class StoreSim:
         have = set(f.all_fs)
         for _a, fs in f.extra_assoc:
             have |= set(fs)
-        if not fsets or have & set(fsets) or not f.rows:
+        dup = list(op.get('dup_fs', []))
+        if not (fsets or dup) or have & set(fsets) or not f.rows:
             return None
+        if dup and (not set(dup) <= have or 'base' in dup or sess.overlay):
+            return None
+        new_fs = list(fsets)
+        fsets = new_fs + dup
         if aname in [a for a, _ in list(f.assoc) + list(f.extra_assoc)] or aname in self.files:
             return None
         from AEIC.storage import FieldSet
 
         sp_map = op.get('species', {})
         made = []
+        made_alt = []
 
         class Data:
             FIELD_SETS = [FieldSet.from_registry(x) for x in fsets]
 
-        def fn(traj):
+        extra = bool(op.get('extra_args'))
+
+        def fn(traj, a=None, key=None):
+            if extra:
+                # create_associated(file, fieldsets, fn, *args, **kwargs) hands the extra
+                # arguments on after the trajectory
+                from AEIC.trajectories.trajectory import Trajectory as _T
+
+                if not isinstance(traj, _T) or a != 'pos-extra' or key != 'kw-extra':
+                    raise AssertionError('mapping function called with the wrong arguments: '
+                                         f'({type(traj).__name__}, {a!r}, key={key!r})')
             i = len(made)
             row_sp = sp_map
             if op.get('species_later') and i > 0:
@@ -1102,12 +1290,14 @@ class StoreSim:
                                       species=row_sp, fid=None, extreme=op.get('extreme', False)))
             d = Data()
             snap = {}
+            asnap = {}
             full = G.snapshot(donor)
             for x in fsets:
                 for fname, *_ in G.FIELDS[x]:
                     setattr(d, fname, getattr(donor, fname))
-                    snap[fname] = full[fname]
+                    (asnap if x in dup else snap)[fname] = full[fname]
             made.append(snap)
+            made_alt.append(asnap)
             return d
 
         later = op.get('species_later') or {}
@@ -1119,7 +1309,10 @@ class StoreSim:
             first_union = set(x for lst in sp_map.values() for x in lst)
             new_species = any(not set(lst) <= first_union for lst in later.values())
         try:
-            sess.store.create_associated(self.path(aname), fsets, fn)
+            if extra:
+                sess.store.create_associated(self.path(aname), fsets, fn, 'pos-extra', key='kw-extra')
+            else:
+                sess.store.create_associated(self.path(aname), fsets, fn)
         except Exception as e:  # noqa: BLE001
             if new_species:
                 # lenient reading (as for add): values for species outside the file's fixed species
@@ -1136,7 +1329,10 @@ class StoreSim:
             self.fail('assoc.refused', f'mapping function called {len(made)} times for {len(f.rows)} rows', sess)
         for row, extra in zip(f.rows, made):
             row.update(extra)
-        f.extra_assoc.append((aname, fsets))
+        f.extra_assoc.append((aname, new_fs))
+        if dup:
+            f.alt[aname] = {'fs': dup, 'rows': made_alt}
+            self.probes['create_associated_recomputed'] += 1
         self.probes['create_associated'] += 1
         return 'ok'
 
@@ -1158,9 +1354,9 @@ class StoreSim:
             return [self.fpath(f) for f in parts], parts, 'base', None
         paths = []
         for f in parts:
-            if akey >= len(f.assoc):
+            if (akey - 100 >= len(f.extra_assoc)) if akey >= 100 else (akey >= len(f.assoc)):
                 return None
-            aname = f.assoc[akey][0]
+            aname = self._assoc_entry(f, akey)[0]
             if f.assoc_where.get(aname):
                 return None
             paths.append(self.path(aname))
@@ -1183,7 +1379,7 @@ class StoreSim:
                 if sorted(f.base_fs) != sorted(f0.base_fs) or f.ident != f0.ident:
                     return False
             else:
-                if sorted(f.assoc[akey][1]) != sorted(f0.assoc[akey][1]):
+                if sorted(self._assoc_entry(f, akey)[1]) != sorted(self._assoc_entry(f0, akey)[1]):
                     return False
         return True
 
@@ -1218,7 +1414,7 @@ class StoreSim:
             if kind == 'base':
                 f.where = op['out']
             else:
-                f.assoc_where[f.assoc[akey][0]] = op['out']
+                f.assoc_where[self._assoc_entry(f, akey)[0]] = op['out']
 
     def op_open_merged(self, op):
         from AEIC.trajectories import TrajectoryStore
@@ -1231,22 +1427,36 @@ class StoreSim:
         if any(f.open_by is not None for f in parts):
             return None
         assoc_dirs = []
+        assoc_used = []
         vis = list(parts[0].base_fs)
         for an in op.get('assoc', []):
             am = self.merged.get(an)
             if am is None or am.kind != 'assoc' or am.parts != m.parts or not am.complete:
                 continue
             assoc_dirs.append(self.path(an))
-            vis += parts[0].assoc[am.assoc_key][1]
+            assoc_used.append(an)
+            vis += [x for x in self._assoc_entry(parts[0], am.assoc_key)[1] if x not in vis]
         kw = {}
         if assoc_dirs:
             kw['associated_files'] = assoc_dirs
+        override = bool(op.get('override'))
+        if override:
+            kw['override'] = True
         op['cache'] = self.eff_cache(op['cache'], vis, [s for f in parts for s in f.specs])
         try:
             store = TrajectoryStore.open(base_file=self.path(m.name), cache_size_mb=op['cache'], **kw)
         except Exception as e:  # noqa: BLE001
             self.fail('open.refused', f'merged: {type(e).__name__}: {e}', mode='merged')
         sess = MSession(sid, 'merged', None, op['cache'], vis, store=store, merged=m)
+        sess.__dict__['assoc_used'] = list(assoc_used)
+        sess.__dict__['override'] = override
+        f0 = parts[0]
+        name_of = {self._assoc_entry(f0, self.merged[an].assoc_key)[0]: an for an in assoc_used}
+        vis, ov = self._resolve(f0, list(name_of), override)
+        sess.visible_fs = vis
+        sess.overlay = [(name_of[a], fsl) for a, fsl in ov]
+        if any(a in f0.alt for a in name_of):
+            self.probes['open_merged_override_recomputed' if override else 'open_merged_recomputed_no_override'] += 1
         sess.len_at_open = len(self._rows(sess))
         self.sessions[sid] = sess
         for f in parts:
@@ -1259,6 +1469,25 @@ class StoreSim:
             self.probes['open_merged_with_assoc'] += 1
         self._abstract(sess, 'open')
         return n
+
+    def op_remove_merged(self, op):
+        """The operator deletes a merged store, together with the separately merged associated
+        stores of the same parts (rm -r).  Its path is free for a later merge."""
+        import shutil
+
+        m = self.merged.get(op['merged'])
+        if m is None or m.kind != 'base' or not m.complete:
+            return None
+        if any(self.files[p].open_by is not None for p in m.parts):
+            return None
+        names = [m.name] + [a.name for a in self.merged.values() if a.kind == 'assoc' and a.parts == m.parts]
+        for n in names:
+            shutil.rmtree(self.path(n), ignore_errors=True)
+            del self.merged[n]
+        for p in m.parts:
+            del self.files[p]
+        self.probes['remove_merged'] += 1
+        return len(names)
 
     def op_append_merged(self, op):
         """Appending to a merged store must be refused."""
